@@ -64,18 +64,18 @@ Proof. by_ka @DOUBLE_shape_ka. Qed.
 Definition is_dot (c : N) : bool := N.eqb c c_dot.
 Definition is_e (c : N) : bool := orb (N.eqb c c_e) (N.eqb c c_E).
 
-Lemma inr_not_dot_e x : inr x [(0, 45); (47, 68); (70, 100); (102, 1114111)] = true ->
+Lemma inr_not_dot_e x : inr x cls_not_dot_e = true ->
   is_dot x = false /\ is_e x = false.
 Proof.
-  unfold inr, existsb, in_range, is_dot, is_e, c_dot, c_e, c_E, fst, snd. intro H.
+  unfold cls_not_dot_e, inr, existsb, in_range, is_dot, is_e, c_dot, c_e, c_E, fst, snd. intro H.
   repeat (apply Bool.orb_true_iff in H; destruct H as [H|H]); try discriminate;
     apply Bool.andb_true_iff in H; destruct H as [H1 H2]; apply N.leb_le in H1, H2;
     (split; [apply N.eqb_neq | apply Bool.orb_false_iff; split; apply N.eqb_neq]); Lia.lia.
 Qed.
 
-Lemma inr_not_e x : inr x [(0, 68); (70, 100); (102, 1114111)] = true -> is_e x = false.
+Lemma inr_not_e x : inr x cls_not_e = true -> is_e x = false.
 Proof.
-  unfold inr, existsb, in_range, is_e, c_e, c_E, fst, snd. intro H.
+  unfold cls_not_e, inr, existsb, in_range, is_e, c_e, c_E, fst, snd. intro H.
   repeat (apply Bool.orb_true_iff in H; destruct H as [H|H]); try discriminate;
     apply Bool.andb_true_iff in H; destruct H as [H1 H2]; apply N.leb_le in H1, H2;
     apply Bool.orb_false_iff; split; apply N.eqb_neq; Lia.lia.
@@ -91,7 +91,7 @@ Proof.
   destruct (inr_not_dot_e x Hx) as [A B]. destruct IH as [C D]. simpl. rewrite A, B, C, D. split; reflexivity.
 Qed.
 
-Lemma Forall_not_e w : Forall (fun x => inr x [(0, 68); (70, 100); (102, 1114111)] = true) w ->
+Lemma Forall_not_e w : Forall (fun x => inr x cls_not_e = true) w ->
   existsb is_e w = false.
 Proof.
   induction 1 as [|x w Hx _ IH]; [reflexivity|]. simpl. rewrite (inr_not_e x Hx), IH. reflexivity.
@@ -137,7 +137,7 @@ Proof.
   { unfold chr, inr, existsb, in_range, fst, snd in Hx.
     rewrite Bool.orb_false_r in Hx. apply Bool.andb_true_iff in Hx. destruct Hx as [H1 H2].
     apply N.leb_le in H1, H2. apply N.eqb_eq. Lia.lia. }
-  rewrite !existsb_app_l. simpl. rewrite Ex. rewrite Bool.orb_true_r. reflexivity.
+  rewrite !existsb_app_l. cbn [existsb]. rewrite Ex. rewrite Bool.orb_true_r. reflexivity.
 Qed.
 
 (* ---------- the three numeric productions of the Turtle grammar are pairwise disjoint ---------- *)
